@@ -48,7 +48,49 @@ func wipeArg(i ssa.Instruction) (ssa.Value, bool) {
 	case fnMemClr, fnCoreWipe:
 		return callOf(i).Args[0], true
 	}
+	// a repo helper that wipes one of its []byte parameters on every path to return wipes the argument passed for it
+	if k := wipesParam(f); k >= 0 && k < len(callOf(i).Args) {
+		return callOf(i).Args[k], true
+	}
 	return nil, false
+}
+
+var wipesParamMemo = map[*ssa.Function]int{}
+
+// wipesParam: index (in the call's argument list, receiver included) of the []byte parameter that f hands to
+// MemClr / core.Wipe on every path from entry to return; -1 if there is none.
+func wipesParam(f *ssa.Function) int {
+	if f == nil || f.Blocks == nil || f.Pkg == nil || !strings.HasPrefix(f.Pkg.Pkg.Path(), "github.com/godaddy/asherah/") {
+		return -1
+	}
+	if k, ok := wipesParamMemo[f]; ok {
+		return k
+	}
+	wipesParamMemo[f] = -1
+	for k, p := range f.Params {
+		if !isByteSlice(p.Type()) {
+			continue
+		}
+		ok, _ := mustPass(f.Blocks[0], 0, func(j ssa.Instruction) bool {
+			if _, isGo := j.(*ssa.Go); isGo {
+				return false
+			}
+			g := staticCallee(j)
+			if g == nil {
+				return false
+			}
+			switch funcFullName(g) {
+			case fnMemClr, fnCoreWipe:
+				return resolve(callOf(j).Args[0]) == ssa.Value(p)
+			}
+			return false
+		}, nil)
+		if ok {
+			wipesParamMemo[f] = k
+			return k
+		}
+	}
+	return -1
 }
 
 func isByteSlice(t types.Type) bool {
@@ -105,7 +147,57 @@ func classifyDecrypt(i ssa.Instruction) string {
 	if root.Name() == "DecryptKey" && root.Signature.Recv() != nil && len(root.Params) == 3 && ap == "P:"+root.Params[2].Name() {
 		return "key"
 	}
+	// a parameter of a helper: what its call sites pass
+	if p, ok := resolve(cc.Args[0]).(*ssa.Parameter); ok && p.Parent() == i.Parent() {
+		return classifyParam(p, 0)
+	}
 	return ""
+}
+
+// classifyParam: "key" / "payload" when every static call site of the parameter's function passes such an operand.
+func classifyParam(p *ssa.Parameter, depth int) string {
+	f := p.Parent()
+	if depth > 2 || f == nil {
+		return ""
+	}
+	idx := -1
+	for k, q := range f.Params {
+		if q == p {
+			idx = k
+		}
+	}
+	buildCallSiteIndex(f)
+	if idx < 0 || addressTaken[orig(f)] {
+		return ""
+	}
+	out := ""
+	for _, ci := range callSiteIndex[orig(f)] {
+		args := ci.Common().Args
+		if idx >= len(args) {
+			return ""
+		}
+		ap := accessPath(args[idx])
+		cls := ""
+		switch {
+		case strings.HasSuffix(ap, ".EncryptedKey"):
+			cls = "key"
+		case strings.HasSuffix(ap, ".Data"):
+			cls = "payload"
+		default:
+			caller := ci.Parent()
+			root := rootFunc(caller)
+			if root.Name() == "DecryptKey" && root.Signature.Recv() != nil && len(root.Params) == 3 && ap == "P:"+root.Params[2].Name() {
+				cls = "key"
+			} else if q, isP := resolve(args[idx]).(*ssa.Parameter); isP && q.Parent() == caller {
+				cls = classifyParam(q, depth+1)
+			}
+		}
+		if cls == "" || (out != "" && out != cls) {
+			return ""
+		}
+		out = cls
+	}
+	return out
 }
 
 // actionFunc resolves the function value passed as the action of an accessor call.
